@@ -105,3 +105,32 @@ Theorem copy_closed : forall tid src dst snaps es s,
   forall b, In b (flat_map (reach tid) snaps) -> has (dst ++ indexed_blobs s) b = true.
 Proof. exact copy_closed_lemma. Qed.
 Print Assumptions copy_closed.
+
+From Verif.C12 Require Import Proofs4.
+
+(* MERGE, THE LOOP AS WRITTEN.  `merge_loop_gen` is the loop of tree::merge_trees statement by statement
+   (fill the heap with the first node of every tree; pop; push the successor of the popped node's tree
+   BEFORE the next pop; collect equal names; merge_nodes on a name change) over an arbitrary priority
+   queue.  For EVERY push/pop meeting the priority-queue specification (`pq_spec`: push adds, pop
+   returns an element of least name and leaves the rest) it satisfies the same path specification as
+   `merge` (`spec_at` is the match of theorem merge_paths).  The instance extracted and compared with
+   the implementation case by case, ties included, is std's BinaryHeap algorithm (Model.heap_push /
+   heap_pop); that this instance meets `pq_spec` is NOT proved (trusted: BinaryHeap is a priority queue). *)
+Theorem merge_loop_paths : forall cmp hpush hpop, pq_spec hpush hpop -> preorder cmp ->
+  forall ts, Forall (fun t => wf_tree t = true) ts ->
+  forall p, p <> [] -> spec_at cmp ts (merge_loop_gen cmp hpush hpop ts) p.
+Proof. exact merge_loop_paths_top. Qed.
+Print Assumptions merge_loop_paths.
+
+(* ... and its result is strictly sorted by name at the top level (no name twice) — what the unfixed code
+   violated on backup-written trees with names that need escaping, where the premise wf_tree (sorted in the
+   order the merge compares) failed. *)
+Theorem merge_loop_sorted : forall cmp hpush hpop, pq_spec hpush hpop ->
+  forall ts, Forall (fun t => wf_tree t = true) ts -> sorted (merge_loop_gen cmp hpush hpop ts).
+Proof. exact merge_loop_sorted_top. Qed.
+Print Assumptions merge_loop_sorted.
+
+(* the priority-queue specification is satisfiable (push = cons, pop = first element of least name) *)
+Theorem pq_spec_nonvacuous : pq_spec (fun h x => x :: h) pop_min.
+Proof. exact pq_spec_satisfiable. Qed.
+Print Assumptions pq_spec_nonvacuous.
